@@ -98,6 +98,20 @@ func c05Enum(thorough bool) []*driver.Plan {
 }
 
 func c05BuildOne(e *driver.Env) {
+	if prev, ok := e.Data.(*Sys); ok && prev != nil {
+		if e.Shared == nil {
+			e.Shared = map[string]any{}
+		}
+		e.Shared["prev"] = prev
+		if prev.ToSeqDone {
+			// the caller owns the returned slice: it scribbles over it; whatever
+			// the next call does must not bring the old contents back
+			for i := range prev.ToSeqRes {
+				prev.ToSeqRes[i] = -1
+			}
+			prev.M.Out = append([]int(nil), prev.ToSeqRes...)
+		}
+	}
 	e.Data = BuildStage(e, "C05.a")
 }
 
@@ -126,6 +140,12 @@ func c05Final(e *driver.Env) {
 	}
 	if p.Stage == "ToSeq" && (!s.ToSeqDone || !eqInts(s.ToSeqRes, s.M.Out)) {
 		e.Failf("C05.a", "ToSeq result differs from its input", "ToSeq returned %v (done=%v), input %v", s.ToSeqRes, s.ToSeqDone, s.M.Out)
+		return
+	}
+	// a slice returned by an earlier ToSeq call belongs to the caller: a later
+	// use of the stage must not change it
+	if prev, ok := e.Shared["prev"].(*Sys); ok && prev != s && prev.ToSeqDone && !eqInts(prev.ToSeqRes, prev.M.Out) {
+		e.Failf("C05.a", "the slice returned by an earlier ToSeq call changed afterwards", "first call returned %v, now it reads %v", prev.M.Out, prev.ToSeqRes)
 		return
 	}
 	// C05.c: Take consumes no more than n elements
